@@ -103,6 +103,42 @@ PROPS = {
             "send back-pressure is switched off where 'at once' is judged (a connection task does nothing while the transport refuses to send)",
         ],
     ),
+    "C04": dict(
+        level="exploration",
+        level_text="Trace oracle on every packet the receiving endpoint emits, over generated arrival scripts from the scripted "
+                   "peer (in order, shuffled within windows of 1..300 packets, duplicated, dropped-then-resent, far beyond the "
+                   "reassembly window, FIN out of sequence, data after FIN; payload sizes 1 B..link maximum; readers greedy / slow / "
+                   "stalled / delayed / dropped or stopped mid-stream; receive buffers from 2 segments to 1 MiB; ISNs placed across "
+                   "the 16-bit wrap). Ground truth of 'stored' comes from a hook on the reassembler's decision; independent of it, "
+                   "ack_nr is also bounded by the contiguous prefix the script delivered. Checked: ack_nr, every SACK bit both "
+                   "ways (64 deep), ack monotonicity, advertised window vs exact free space (whole-payload dequeue accounting), "
+                   "hooked queue/reassembler byte bounds, refusal of in-window data, and the final drain (acknowledged data reaches "
+                   "a reader that reads to the end, unaltered).",
+        level_note=SIM_NOTE + "; the RxData hook (what the reassembler did with a packet) is trusted as ground truth for 'stored'",
+        technique="runtime monitoring: scripted-peer arrival patterns + per-emitted-packet oracle against a stored-set model",
+        budget=dict(quick=200, thorough=2400),
+        require=["c04_emitted_packets_checked", "c04_sacks_checked", "c04_windows_checked", "c04_snapshots_checked", "c04_final_drains_checked"],
+        rule="a case is one generated (socket configuration, reader behaviour, payload sizes, arrival script) tuple; non-trivial = more "
+             "than 2 emitted packets judged; distinct = distinct normalised wire trace",
+        assumptions=["data beyond an accepted FIN is not part of the stream", "snapshots at the instant a connection ends are not judged (the close path hands parked data to the reader)"],
+    ),
+    "C07": dict(
+        level="exploration",
+        level_text="Timing oracle on virtual time over generated arrival scripts (one stimulus per logical step; inter-arrival "
+                   "times 0..200 ms incl. 39/40/41 ms, bursts, idle stretches of 1.5..8 s): each accepted in-order packet covered by "
+                   "an emitted ack_nr within 40 ms + 3 ms; an acknowledgement in the very step for: unacknowledged bytes reaching "
+                   "twice the endpoint's own (growing) segment size, out-of-order arrival or gap fill, duplicates, in-sequence FIN, "
+                   "an application read that re-opens a zero window; and no emission at all after a second without stimulus, "
+                   "application activity or debt.",
+        level_note=SIM_NOTE,
+        technique="runtime monitoring: scripted-peer arrival timing + obligation-tracking oracle on virtual time",
+        budget=dict(quick=200, thorough=2400),
+        require=["c07_delayed_acks_checked", "c07_immediate_acks_checked", "c07_threshold_crossings_seen", "c07_out_of_order_or_gap_fill_seen",
+                 "c07_duplicates_seen", "c07_fins_seen", "c07_window_reopenings_seen", "c07_idle_stretches_observed"],
+        rule="a case is one generated (socket configuration, reader behaviour, payload sizes, timed arrival script) tuple; "
+             "non-trivial = more than 2 emissions judged; distinct = distinct normalised wire trace",
+        assumptions=["tolerance 3 ms: timer wheel rounds up to 1 ms and a logical step is 1 ms", "judged on a pure receiver (the endpoint's application writes nothing)"],
+    ),
     "C05": dict(
         level="exploration",
         level_text="Trace oracle over generated ACK/window histories produced by a scripted raw-uTP peer (instant delivery, so the "
